@@ -231,6 +231,8 @@ structure Py where
   decodeStrict : List UInt8 → Option Str
   /-- `float(s)`, `none` = ValueError -/
   readRate : Str → Option Rate
+  /-- `unicodedata.normalize("NFKD", s)` -/
+  nfkd : Str → Str
 
 /-! ## config.py -/
 
@@ -475,24 +477,37 @@ def registerGuarded (specialSymbols : List (Str × Str)) (r : Reg) (sym name : S
         if r1.names.contains sp || r1.names.contains (sp ++ sPlural) || r1.syms.contains sp then .ok r1
         else registerUnit r1 sp sp c
 
-/-- one iteration of `for c in CURRENCY_DATA:` -/
-def registerRow (specialNames specialSymbols : List (Str × Str)) (r : Reg) (c : Cur) : Res Reg :=
-  if !c.rate.pos then .ok r                                               -- corrupt entry
-  else if r.names.contains c.name && r.syms.contains c.symbol then .ok r  -- both clash
-  else
-    let name := if r.names.contains c.name then c.symbol else c.name
-    let sym := if r.syms.contains c.symbol then c.name else c.symbol
-    let name := match lookupStr sym specialNames with
-      | some n => n
-      | none => name
-    registerGuarded specialSymbols r sym name c
+def isAsciiAlpha (c : Nat) : Bool := (65 ≤ c && c ≤ 90) || (97 ≤ c && c ≤ 122)
+def isAsciiAlnum (c : Nat) : Bool := isAsciiAlpha c || (48 ≤ c && c ≤ 57)
 
-def registerAll (specialNames specialSymbols : List (Str × Str)) : Reg → Table → Res Reg
+/-- `typable_name(name, fallback)`: NFKD-decompose, keep the ASCII letters, digits and `_`;
+    the fallback when nothing is left or the first character is not a letter -/
+def typableName (nfkd : Str → Str) (name fallback : Str) : Str :=
+  let cleaned := (nfkd name).filter (fun ch => ch < 128 && (isAsciiAlnum ch || ch = cUnderscore))
+  match cleaned with
+  | [] => fallback
+  | c :: _ => if isAsciiAlpha c then cleaned else fallback
+
+/-- one iteration of `for c in CURRENCY_DATA:` -/
+def registerRow (nfkd : Str → Str) (specialNames specialSymbols : List (Str × Str)) (r : Reg) (c : Cur) : Res Reg :=
+  if !c.rate.pos then .ok r                                               -- corrupt entry
+  else
+    let cname := typableName nfkd c.name c.symbol
+    if r.names.contains cname && r.syms.contains c.symbol then .ok r      -- both clash
+    else
+      let name := if r.names.contains cname then c.symbol else cname
+      let sym := if r.syms.contains c.symbol then cname else c.symbol
+      let name := match lookupStr sym specialNames with
+        | some n => n
+        | none => name
+      registerGuarded specialSymbols r sym name c
+
+def registerAll (nfkd : Str → Str) (specialNames specialSymbols : List (Str × Str)) : Reg → Table → Res Reg
   | r, [] => .ok r
   | r, c :: cs =>
-    match registerRow specialNames specialSymbols r c with
+    match registerRow nfkd specialNames specialSymbols r c with
     | .error e => .error e
-    | .ok r1 => registerAll specialNames specialSymbols r1 cs
+    | .ok r1 => registerAll nfkd specialNames specialSymbols r1 cs
 
 /-! ## interpret.py: history -/
 
@@ -600,7 +615,7 @@ def startup (G : Guards) (py : Py) (k : Consts) (units0 : Reg) (cfg cur hist : F
   let regRes : Res Reg :=
     match base with
     | none => .ok units0
-    | some _ => registerAll k.specialNames k.specialSymbols units0 table
+    | some _ => registerAll py.nfkd k.specialNames k.specialSymbols units0 table
   match regRes with
   | .error e => .error e
   | .ok reg =>
@@ -746,5 +761,8 @@ def Py.cpython : Py where
   decodeReplace b := (utf8Decode (b.length + 1) (b.map UInt8.toNat)).1
   decodeStrict b := let (s, e) := utf8Decode (b.length + 1) (b.map UInt8.toNat); if e then none else some s
   readRate := readRateCPython
+  -- NFKD needs the Unicode decomposition tables: the driver's `curreg` stream receives the decomposed names
+  -- from the harness instead; no other stream's answer depends on it
+  nfkd := id
 
 end KaVerif.UserFiles
